@@ -61,6 +61,7 @@ func checkOne(s string, rendered bool) {
 	if !rendered {
 		return
 	}
+	spreadSinks(s)
 	for name, c := range map[string]templ.Component{"a.href": AHref(out), "form.action": FormAction(out), "a.cond-href": CondHref(out, true), "a.href-URL()": AHrefURL(s)} {
 		html := render(c)
 		r := htmltok.Tokenize(html)
@@ -77,6 +78,36 @@ func checkOne(s string, rendered bool) {
 		if !ok {
 			run.Violation("rendered-"+name, fmt.Sprintf("sink %s with %s rendered %s: attribute does not decode to URL(s)", name, vlib.Quote(s), vlib.Quote(html)), map[string]any{"sink": name, "input": s, "html": html})
 		}
+	}
+}
+
+// spreadSinks: href on <a> and action on <form> filled through a spread attribute map with a plain string. The
+// statement says they can only be filled through the safe-URL type; what a browser must not get is a URL whose scheme
+// is not allowed. Known finding: the value is written as it is (escaped, not sanitised) — anything else the sink does
+// (an unescaped value, another attribute) is reported under another key.
+func spreadSinks(s string) {
+	sch, abs := whatwgurl.Scheme(s)
+	for name, c := range map[string]templ.Component{
+		"a{href}": ASpread(templ.Attributes{"href": s}), "a{HREF}": ASpread(templ.Attributes{"HREF": s}),
+		"form{action}": FormSpread(templ.Attributes{"action": s}), "a{href: *string}": ASpread(templ.Attributes{"href": &s}),
+		"a{href: KV}": ASpread(templ.Attributes{"href": templ.KV(s, true)}),
+	} {
+		html := render(c)
+		r := htmltok.Tokenize(html)
+		if r.Unterminated || len(r.Tokens) < 2 || r.Tokens[0].Kind != htmltok.StartTag || len(r.Tokens[0].Attrs) != 1 {
+			run.Violation("spread-structure-"+name, fmt.Sprintf("sink %s with %s rendered %s: not one element with one attribute", name, vlib.Quote(s), vlib.Quote(html)), map[string]any{"sink": name, "input": s, "html": html})
+			continue
+		}
+		got := r.Tokens[0].Attrs[0].Value
+		gsch, gabs := whatwgurl.Scheme(got)
+		if !gabs || allowed[gsch] || got == string(templ.FailedSanitizationURL) {
+			continue
+		}
+		key := "spread-url-altered-" + name
+		if got == s && abs && sch == gsch {
+			key = "spread-attributes-fill-href-and-action-without-url-typing"
+		}
+		run.Violation(key, fmt.Sprintf("sink %s with the plain string %s rendered %s: a browser sees scheme %q", name, vlib.Quote(s), vlib.Quote(html), gsch), map[string]any{"sink": name, "input": s, "html": html})
 	}
 }
 
